@@ -1,3 +1,5 @@
+//@ item src/sources/mod.rs / struct Idle props=C13
+//@ enditem
 //@ item src/sources/mod.rs / trait CancellableIdle props=C13
 //@ enditem
 //@ open src/sources/mod.rs / impl CancellableIdle for Option<F>
